@@ -271,7 +271,10 @@ theorem runTrx_side {s : St} {e : Bool} {ht : Int} {tx : TxIn} {rc : Account} {s
     or receives one record of height `ht` in the view of path `e` -/
 theorem handleTx_side (s : St) (e : Bool) (ht : Int) (tx : TxIn) (hl : LimOK s.limiter) :
     LimOK (handleTx s e ht tx).1.limiter ∧ RewStep e ht s.rewards (handleTx s e ht tx).1.rewards := by
-  unfold handleTx
+  by_cases hlen : byteLen tx.to = 20
+  case neg => rw [handleTx_badlen_fst hlen]; exact ⟨hl, Or.inl rfl⟩
+  rw [handleTx_goodlen hlen]
+  unfold handleTxOld
   simp only []
   split
   · exact ⟨hl, Or.inl rfl⟩
